@@ -228,6 +228,30 @@ theorem going_offline_converges (c : Ctx) (tO : Topic) (x : String) (o1 : Bool)
   rw [hrun]
   exact ⟨⟨tO', hO'l, hO'tab⟩, hoff1⟩
 
+/-! ### the idle unload of a `me` topic -/
+
+theorem terminateTopic_off (c : Ctx) (t : Topic) : (c.terminateTopic t).off = c.off := by
+  unfold Ctx.terminateTopic
+  have : ∀ (l : List (Sid × Uid)) (c : Ctx),
+      (l.foldl (fun c (x : Sid × Uid) => { c with w := c.w.detach x.1 t.name }) c).off = c.off := by
+    intro l
+    induction l with
+    | nil => intro c; rfl
+    | cons x xs ih => intro c; rw [List.foldl_cons, ih]
+  exact this t.sessions c
+
+/-- when a user's `me` topic is unloaded (no session is attached any more), "offline" is put on the queue for every contact the
+topic may tell: the p2p partners' `me` topics and the groups (`notifyOnOrSkip` leaves out channels) -/
+theorem unload_me_tells_contacts (c : Ctx) (tn : TName) (t : Topic) (hl : c.w.live? tn = some t) (hs : t.sessions = [])
+    (n : String) (o e : Bool) (hm : (n, o, e) ∈ t.perSubs) (hn : (notifyOnOrSkip n "off" o).isSome = true) :
+    (n, { what := "off", src := t.name }) ∈ (c.opUnloadMe tn).1.off := by
+  unfold Ctx.opUnloadMe
+  simp only [hl, hs, List.isEmpty_nil, Bool.not_true, Bool.false_eq_true, if_false]
+  rw [terminateTopic_off]
+  unfold Ctx.presUsersOfInterest
+  have := users_of_interest_complete c t "off" (decide ("off" = "on")) (decide ("" = "dis")) n o e hm hn
+  simpa [Ctx.putLive] using this
+
 /-- the premises are met by a concrete world: two users on `me`, each listing the other as an enabled contact last seen offline -/
 example :
     let tO : Topic := { name := "U1", isMe := true, perSubs := [("U2", false, true)] }
